@@ -473,7 +473,11 @@ Definition api_delete (ph : N) (c : ckind) (k0 : key) : M unit :=
   target <- (match k with
              | KeyObj h => x <- the_handle h ;;
                            (* a Feature is not an Entity: `del tag.features[feature]` goes through
-                              self[feature] and is refused with a TypeError *)
+                              self[feature] and is refused with a TypeError - after is_uuid(str(feature)),
+                              and Feature.__str__ reads feature.data, which raises RuntimeError when the
+                              data link is gone *)
+                           guard (negb (ekind_eqb (hk x) KFeature) ||
+                                  match child (sto s) (ha x) (TS s_data) with Some _ => true | None => false end) ERuntime ;;;
                            guard (negb (ekind_eqb (hk x) KFeature)) EType ;;;
                            guard (ekind_eqb (hk x) (ckind_item c)) EType ;;; ret (ha x)
              | _ => r <- lift_sum (container_get (sto s) (child (sto s) (ha p) (TS (cgroup (hk p) c))) k (hs s)) ;;
